@@ -589,7 +589,9 @@ func showServed(a *aggSUT, items []string) (left, right string) {
 func (a *aggSUT) readRes(b *common.Beacon, err error, rnd []byte, withRnd bool) string {
 	if err != nil || b == nil {
 		left := "none"
-		if err != nil && !strings.Contains(err.Error(), "no beacon") && !strings.Contains(err.Error(), "can't retrieve") {
+		if err != nil && (strings.Contains(err.Error(), "deadline exceeded") || strings.Contains(err.Error(), "context canceled")) {
+			left = "timeout"
+		} else if err != nil && !strings.Contains(err.Error(), "no beacon") && !strings.Contains(err.Error(), "can't retrieve") {
 			left = "err"
 		}
 		return a.finish(left, "v=-")
@@ -744,7 +746,13 @@ func aggEngine(args []string, in *bufio.Scanner, out *bufio.Writer) {
 				return a.finish(l, "v="+r)
 			case "pubrand", "proxyget":
 				r, _ := strconv.ParseUint(f[1], 10, 64)
-				ctx, cancel := context.WithTimeout(a.peerCtx(), 120*time.Millisecond)
+				// only a request for head+1 blocks (until the next beacon or the deadline): give that one a short deadline,
+				// every other request a generous one so that a loaded machine cannot turn a Get into a timeout
+				to := settleTimeout
+				if last, err := a.h.Store().Last(a.ctx); err == nil && r == last.Round+1 {
+					to = 150 * time.Millisecond
+				}
+				ctx, cancel := context.WithTimeout(a.peerCtx(), to)
 				defer cancel()
 				if f[0] == "pubrand" {
 					resp, err := a.bp.PublicRand(ctx, &drand.PublicRandRequest{Round: r})
